@@ -99,6 +99,30 @@ func signature(fn *ssa.Function, subst map[ssa.Value]ssa.Value, pkgs map[string]
 			if strings.HasPrefix(name, "builtin ") {
 				continue
 			}
+			// a call through a function-valued parameter that the caller bound to a method expression
+			// (read := (*jx.Decoder).Int32; read(d)): the step is that method
+			if !cc.IsInvoke() && cc.StaticCallee() == nil {
+				if fv, ok := resolve(cc.Value).(*ssa.Function); ok {
+					if inlinePkg(fv, pkgs) {
+						sub := map[ssa.Value]ssa.Value{}
+						for i, p := range fv.Params {
+							if i < len(cc.Args) {
+								sub[p] = resolve(cc.Args[i])
+							}
+						}
+						signature(fv, sub, pkgs, depth+1, out)
+						continue
+					}
+					if obj, ok := fv.Object().(*types.Func); ok {
+						if m := fn.Prog.FuncValue(obj); m != nil {
+							name = core.FuncName(m)
+							if strings.HasPrefix(name, "(*jx.") || strings.HasPrefix(name, "(jx.") {
+								name = strings.Replace(name, "jx.", "github.com/go-faster/jx.", 1)
+							}
+						}
+					}
+				}
+			}
 			st := step{name: name, pos: call.Pos()}
 			args := cc.Args
 			if cc.IsInvoke() {
@@ -309,6 +333,10 @@ func classify(s step) (absStep, bool) {
 		a.kind, a.base, a.bits = "uint", 10, 64
 	// ---- neutral
 	case "github.com/go-faster/jx.DecodeBytes", "github.com/go-faster/errors.Wrap", "github.com/go-faster/errors.New",
+		"github.com/go-faster/errors.Errorf",
+		// whole-input guards of a decoder: they reject, they do not transform
+		"bytes.ContainsAny", "(*github.com/go-faster/jx.Decoder).Skip",
+		"(net/netip.Addr).Is4", "(net/netip.Addr).Is6", // version guards of the ipv4 / ipv6 decoders
 		"dynamic", "slices.Clone":
 		a.kind = "neutral"
 	default:
@@ -495,6 +523,28 @@ func checkPair(c *core.Ctx, r2, r3 *core.Rule, p codecPair, es, ds []step) {
 		}
 	}
 	_ = elemT
+	// a decoder that parses text with a fresh jx decoder (jx.DecodeBytes(s).Int32()) takes the first value and
+	// stops: unless it then asks for the end of input, "12,13" or "12 " decode as 12. strconv parsers are
+	// whole-string by themselves.
+	{
+		sub, end := false, false
+		var pos token.Pos
+		for _, s := range ds {
+			switch s.name {
+			case "github.com/go-faster/jx.DecodeBytes", "github.com/go-faster/jx.DecodeStr":
+				sub, pos = true, s.pos
+			case "(*github.com/go-faster/jx.Decoder).Skip":
+				end = true
+			}
+		}
+		if sub {
+			if end {
+				r2.Pass(fmt.Sprintf("%s: the nested decoder is asked for the end of its input", p.name))
+			} else {
+				r2.Fail(p.name+":nested-decoder-no-end", c.Pos(pos), fmt.Sprintf("%s parses its text with a nested jx decoder and never checks that the text ended: trailing data (\"12,13\", \"12 \") is silently ignored, while the URI decoder of the same format rejects it", p.name))
+			}
+		}
+	}
 	var ea, da []absStep
 	for _, s := range es {
 		a, ok := classify(s)
